@@ -51,7 +51,7 @@ def mk_map_op(t, dims, kind):
         stmt, ref = 'm = m*a + m;', 'm[i] = m[i]*a[i] + m[i];'
     elif kind == 'fill':
         stmt, ref = 'm.fill(s);', 'm[i] = s;'
-    wit = 'extern "C" void @W@(%s* buf, const %s& a, const %s& b, %s s){ %s m(buf); %s }' % (ct, tensor_t(t, dims), tensor_t(t, dims), ct, mt, stmt)
+    wit = 'static_assert(sizeof(%s) > 0, "complete type");\nextern "C" void @W@(%s* buf, const %s& a, const %s& b, %s s){ %s m(buf); %s }' % (tensor_t(t, dims), ct, tensor_t(t, dims), tensor_t(t, dims), ct, mt, stmt)
     refc = 'extern "C" void @R@(%s* m, const %s* a, const %s* b, %s s){ for(int i=0;i<%d;i++){ %s } }' % (ct, ct, ct, ct, n, ref)
     return Witness('map_%s_%s_%s' % (kind, t, 'x'.join(map(str, dims))), 'map.write.' + kind, {'type': t, 'dims': list(dims), 'kind': kind}, wit, refc, regions,
                    [{'mod': 'wit', 'fn': '@W@', 'args': ['buf', 'a', 'b', {'scalar': 's'}]}, {'mod': 'ref', 'fn': '@R@', 'args': ['bref', 'a', 'b', {'scalar': 's'}]}],
